@@ -701,6 +701,26 @@ pub fn gen_col_text(r: &mut Rng) -> ColSpec {
     }
 }
 
+/// The columns a statement announces when it is prepared, given those its execution will
+/// return: the same as a rule, but the two are separate statements of the shim (many shims
+/// announce nothing at PREPARE time, others announce what they guess) -- one time in four the
+/// announced list has another length, on the other side of a NULL-bitmap byte boundary.
+pub fn announce_cols(r: &mut Rng, cols: &[ColSpec]) -> Vec<ColSpec> {
+    if !r.chance(1, 4) {
+        return cols.to_vec();
+    }
+    let have = (cols.len() + 9) / 8;
+    let mut n = *r.pick(&[0usize, 0, 1, 6, 7, 8, 14, 15, 16, 22, 23, 30]);
+    if (n + 9) / 8 == have {
+        n = if have == 1 { *r.pick(&[7usize, 8, 15, 23]) } else { *r.pick(&[0usize, 0, 3, 6]) };
+    }
+    let mut out: Vec<ColSpec> = cols.iter().take(n).cloned().collect();
+    while out.len() < n {
+        out.push(gen_col_bin(r));
+    }
+    out
+}
+
 pub fn gen_col_bin(r: &mut Rng) -> ColSpec {
     let mut flags = 0u16;
     if r.chance(1, 3) {
